@@ -1506,3 +1506,70 @@ def r02_9(ctx, repo):
             ctx.error(rule, '%s: stored value of `%s` not derived' % (
                 construct, arg))
     ctx.floor(rule, 2)
+
+
+# -----------------------------------------------------------------------------
+# R05.6 — per-individual parameter tensors are read for all individuals
+# -----------------------------------------------------------------------------
+def r05_6(ctx, repo):
+    """With parameters of shape (n_ids, n_param_per_dim, n_dim) (the layout
+    a covariate model produces) every elementary population model reads
+    parameter k as `parameters[:, k]`; a literal index on the individual axis
+    would apply the first individual's parameters to everybody."""
+    rule = 'R05.6'
+    n = 0
+    for cls in _elementary(repo):
+        inv = _class_invariants(repo, cls)
+        P = inv.get('self._n_parameters')
+        if not isinstance(P, sp.Expr):
+            continue
+        NPD = sp.cancel(P / N_DIM)
+        init = repo.method(cls, '__init__')
+        cent = 'centered' in [a.arg for a in init.args.args]
+        for m in ('compute_individual_parameters', 'compute_log_likelihood',
+                  'compute_sensitivities'):
+            k, fn = repo.resolve(cls, m)
+            if fn is None or k != cls or repo.is_abstract(fn):
+                continue
+            construct = '%s.%s' % (cls, m)
+            seen = set()
+            bad = 0
+            for centered in ([True, False] if cent else [True]):
+                env = dict(inv)
+                env.update({
+                    'parameters': Arr([Ax(R_OBS), Ax(NPD), Ax(N_DIM)]),
+                    'observations': Arr([Ax(R_OBS), Ax(N_DIM)]),
+                    'eta': Arr([Ax(R_OBS), Ax(N_DIM)]),
+                    'dlogp_dpsi': None, 'return_eta': False,
+                    'reduce': Opaque('flag'), 'flattened': Opaque('flag'),
+                    'self._centered': centered, 'self._n_ids': N_IDS,
+                })
+                lf = ShapeLifter(repo, cls, flags={
+                    'self._centered': centered, 'return_eta': False,
+                    'dlogp_dpsi is None': True})
+                lf.terminal = '_shape'
+                lf.individual_labels = {R_OBS.name}
+                try:
+                    lf.run(fn, env)
+                except Exception as e:
+                    ctx.error(rule, '%s: %s: %s' % (construct,
+                                                    type(e).__name__, e))
+                    continue
+                for ev in lf.events:
+                    if 'individual axis' not in ev.msg:
+                        continue
+                    key = 'individual index %s' % ' '.join(
+                        ev.msg.split())[:40]
+                    if key in seen:
+                        continue
+                    seen.add(key)
+                    bad += 1
+                    ctx.violation(rule, repo.loc(ev.node, cls, m), construct,
+                                  key, ev.msg, engine=ENG)
+            n += 1
+            if not bad:
+                ctx.ok(rule, repo.loc(fn, cls, m), construct,
+                       'no literal index on the individual axis of the '
+                       'per-individual parameter tensor', engine=ENG)
+    if n < 10:
+        ctx.error(rule, 'only %d methods analysed (floor 10)' % n)
